@@ -19,7 +19,7 @@ let hex l =
 
 let () =
   let ic = open_in Sys.argv.(1) in
-  let st = ref init in
+  let st = ref binit in
   let ln = ref 0 in
   (try
     while true do
@@ -30,7 +30,7 @@ let () =
       let zi k = z (i k) in
       let op = match toks with
         | [] -> None
-        | "history" :: _ -> st := init; None
+        | "history" :: _ -> st := binit; None
         | "open" :: _ -> Some (OOpen (zi 1))
         | "reopen" :: _ -> Some (OReopen (zi 1))
         | "startwrite" :: _ -> Some (OStartWrite (zi 1, zi 2, zi 3, zi 4, zi 5))
@@ -51,6 +51,7 @@ let () =
         | "dupdd" :: _ -> Some (ODup (zi 1, zi 2, zi 3, zi 4, zi 5))
         | "deldd" :: _ -> Some (ODel (zi 1, zi 2, zi 3))
         | "exist" :: _ -> Some (OExist (zi 1, zi 2, zi 3))
+        | "hbconvert" :: _ -> Some (OHBconvert (zi 1))
         | _ -> None in
       match op with
       | None -> (match toks with "history" :: _ -> Printf.printf "%d history\n" !ln
@@ -58,7 +59,7 @@ let () =
                  | t :: _ when String.length t > 0 && t.[0] = '#' -> Printf.printf "%d skip\n" !ln
                  | _ -> Printf.printf "%d nospec\n" !ln)
       | Some o ->
-        let (s', r) = step !st o in
+        let (s', r) = bstep !st o in
         st := s';
         (match r with
          | RFail -> Printf.printf "%d fail\n" !ln
